@@ -5,11 +5,11 @@ namespace Hpv.Store
 def LocalOk (w : World) (t : Nat) : PC → Prop
   | .fetched k b => w.remote k = some b
   | .haveBytes k b => w.remote k = some b
-  | .tmpOpen k b => w.remote k = some b
-  | .tmpClosed k => ∀ c, w.files (.tmp k.ty t) = some c → w.remote k = some c
+  | .written k => ∀ c, w.files (.tmp k.ty t) = some c → w.remote k = some c
   | .loaded k c => w.remote k = some c
   | _ => True
 
+/-- **The invariant**: every file at a cache location holds exactly the bytes the remote serves for that key. -/
 structure Inv (w : World) : Prop where
   cache : ∀ k c, w.files (.cache k) = some c → w.remote k = some c
   loc : ∀ t, LocalOk w t (w.pcs t)
@@ -20,7 +20,7 @@ structure Inv (w : World) : Prop where
 theorem upd_other {α β} [DecidableEq α] (f : α → β) (a x : α) (b : β) (h : x ≠ a) : upd f a b x = f x := by
   simp [upd, h]
 
-/-- Frame: a world that differs from `w` only in `pcs t`, in `dirs`, in `log`, and in thread `t`'s own temp files. -/
+/-- Frame: a world that differs from `w` only in `pcs t`, `dirs`, `log`, and in thread `t`'s own temp files. -/
 theorem inv_frame (w w' : World) (t : Nat) (hinv : Inv w)
     (hrem : w'.remote = w.remote)
     (hcache : ∀ k c, w'.files (.cache k) = some c → w'.remote k = some c)
@@ -43,11 +43,14 @@ theorem inv_stepLoader (w : World) (t : Nat) (c : Choice) (hinv : Inv w) : Inv (
   simp only []
   split
   · -- die
-    refine inv_frame w _ t hinv rfl hinv.cache ?_ ?_ ?_
-    · intro t' h; simp [World.goto, upd_other _ _ _ _ h]
-    · intro ty t' h; rfl
-    · simp [World.goto, LocalOk]
+    split
+    · exact hinv
+    · refine inv_frame w _ t hinv rfl hinv.cache ?_ ?_ ?_
+      · intro t' h; simp [World.goto, upd_other _ _ _ _ h]
+      · intro ty t' h; rfl
+      · simp [World.goto, LocalOk]
   · split
+    all_goals (try (split))
     all_goals (try (split))
     all_goals (try (split))
     all_goals (
@@ -101,11 +104,478 @@ theorem inv_step (w : World) (a : Action) (hinv : Inv w) : Inv (step w a) := by
     cases hpc : w.pcs t <;> simp only [hpc, LocalOk] at this ⊢ <;> try exact this
     intro c h; simp at h
 
-/-- No incomplete file is ever observable at a cache location, for every interleaving,
-fault sequence and crash point. -/
+/-- No incomplete file is ever observable at a cache location, for every interleaving, fault sequence and crash point. -/
 theorem inv_run (w : World) (as : List Action) (hinv : Inv w) : Inv (run w as) := by
   induction as generalizing w with
   | nil => exact hinv
   | cons a as ih => exact ih (step w a) (inv_step w a hinv)
+
+theorem inv_init (remote : Key → Option Bytes) (tags : Ty → List Nat) : Inv (World.init remote tags) :=
+  ⟨by intro k c h; simp [World.init] at h, by intro t; simp [World.init, LocalOk]⟩
+
+/-! ### latest release -/
+
+theorem foldl_max_spec (l : List Nat) (x : Nat) :
+    (l.foldl max x = x ∨ l.foldl max x ∈ l) ∧ x ≤ l.foldl max x ∧ ∀ y ∈ l, y ≤ l.foldl max x := by
+  induction l generalizing x with
+  | nil => simp
+  | cons a rest ih =>
+    obtain ⟨h1, h2, h3⟩ := ih (max x a)
+    simp only [List.foldl_cons, List.mem_cons]
+    refine ⟨?_, by omega, ?_⟩
+    · rcases h1 with h | h
+      · rw [h]
+        rcases Nat.le_total x a with hxa | hxa
+        · right; left; exact Nat.max_eq_right hxa
+        · left; exact Nat.max_eq_left hxa
+      · right; right; exact h
+    · intro y hy
+      rcases hy with rfl | hy
+      · have : y ≤ max x y := Nat.le_max_right _ _
+        omega
+      · exact h3 y hy
+
+/-- omitting the release selects the greatest available tag; no tag at all is an error -/
+theorem maxTag_spec (l : List Nat) :
+    (maxTag l = none ↔ l = []) ∧ ∀ m, maxTag l = some m → m ∈ l ∧ ∀ y ∈ l, y ≤ m := by
+  cases l with
+  | nil => simp [maxTag]
+  | cons x xs =>
+    obtain ⟨h1, h2, h3⟩ := foldl_max_spec xs x
+    refine ⟨by simp [maxTag], ?_⟩
+    intro m hm
+    simp only [maxTag, Option.some.injEq] at hm
+    subst hm
+    refine ⟨?_, ?_⟩
+    · rcases h1 with h | h
+      · rw [h]; exact List.mem_cons_self
+      · exact List.mem_cons_of_mem _ h
+    · intro y hy
+      rcases List.mem_cons.mp hy with rfl | hy
+      · exact h2
+      · exact h3 y hy
+
+end Hpv.Store
+
+namespace Hpv.Store
+
+/-! ### a release is fetched only after the loader saw that no local copy exists -/
+
+/-- thread `t` is between "isfile said False" and "fetch" for key `k` -/
+def Pend (w : World) (t : Nat) (k : Key) : Prop :=
+  w.pcs t = .checked k ∨ w.pcs t = .dirMade k ∨ w.pcs t = .tmpMade k
+
+structure LogInv (w : World) : Prop where
+  fetches : ∀ (i t : Nat) (k : Key), w.log[i]? = some (Ev.fetch t k) → ∃ j : Nat, j < i ∧ w.log[j]? = some (Ev.isfile t k false)
+  pending : ∀ (t : Nat) (k : Key), Pend w t k → ∃ j : Nat, w.log[j]? = some (Ev.isfile t k false)
+
+theorem getElem?_snoc {α} (l : List α) (e x : α) (i : Nat) :
+    (l ++ [e])[i]? = some x ↔ l[i]? = some x ∨ (i = l.length ∧ e = x) := by
+  rcases Nat.lt_trichotomy i l.length with h | h | h
+  · rw [List.getElem?_append_left h]
+    constructor
+    · intro hh; exact Or.inl hh
+    · rintro (hh | ⟨hh, _⟩)
+      · exact hh
+      · omega
+  · subst h
+    simp
+  · have h1 : (l ++ [e])[i]? = none := by
+      apply List.getElem?_eq_none; simp; omega
+    have h2 : l[i]? = none := List.getElem?_eq_none (by omega)
+    rw [h1, h2]
+    constructor
+    · intro hh; cases hh
+    · rintro (hh | ⟨hh, _⟩)
+      · cases hh
+      · omega
+
+theorem getElem?_lt {α} (l : List α) (i : Nat) (x : α) (h : l[i]? = some x) : i < l.length := by
+  rcases Nat.lt_or_ge i l.length with h' | h'
+  · exact h'
+  · rw [List.getElem?_eq_none h'] at h; cases h
+
+/-- the log is unchanged and no thread newly enters the pending region -/
+theorem LogInv.same_log (w w' : World) (h : LogInv w) (hlog : w'.log = w.log)
+    (hp : ∀ t k, Pend w' t k → Pend w t k) : LogInv w' :=
+  ⟨by rw [hlog]; exact h.fetches, by intro t k hk; rw [hlog]; exact h.pending t k (hp t k hk)⟩
+
+/-- an event other than `fetch` is appended -/
+theorem LogInv.snoc_other (w w' : World) (e : Ev) (h : LogInv w) (hlog : w'.log = w.log ++ [e])
+    (he : ∀ t k, e ≠ Ev.fetch t k)
+    (hp : ∀ t k, Pend w' t k → Pend w t k ∨ e = Ev.isfile t k false) : LogInv w' := by
+  constructor
+  · intro i t k hi
+    rw [hlog, getElem?_snoc] at hi
+    rcases hi with hi | ⟨_, hi⟩
+    · obtain ⟨j, hj, hjj⟩ := h.fetches i t k hi
+      exact ⟨j, hj, by rw [hlog, getElem?_snoc]; exact Or.inl hjj⟩
+    · exact absurd hi (he t k)
+  · intro t k hk
+    rcases hp t k hk with hk' | hk'
+    · obtain ⟨j, hj⟩ := h.pending t k hk'
+      exact ⟨j, by rw [hlog, getElem?_snoc]; exact Or.inl hj⟩
+    · exact ⟨w.log.length, by rw [hlog, getElem?_snoc]; exact Or.inr ⟨rfl, hk'⟩⟩
+
+/-- a `fetch` is appended by a thread that was pending on that key -/
+theorem LogInv.snoc_fetch (w w' : World) (t : Nat) (k : Key) (h : LogInv w) (hlog : w'.log = w.log ++ [Ev.fetch t k])
+    (hpend : Pend w t k) (hp : ∀ t' k', Pend w' t' k' → Pend w t' k') : LogInv w' := by
+  constructor
+  · intro i t' k' hi
+    rw [hlog, getElem?_snoc] at hi
+    rcases hi with hi | ⟨hil, hi⟩
+    · obtain ⟨j, hj, hjj⟩ := h.fetches i t' k' hi
+      exact ⟨j, hj, by rw [hlog, getElem?_snoc]; exact Or.inl hjj⟩
+    · injection hi with h1 h2; subst h1 h2
+      obtain ⟨j, hj⟩ := h.pending t k hpend
+      exact ⟨j, by rw [hil]; exact getElem?_lt _ _ _ hj, by rw [hlog, getElem?_snoc]; exact Or.inl hj⟩
+  · intro t' k' hk
+    obtain ⟨j, hj⟩ := h.pending t' k' (hp t' k' hk)
+    exact ⟨j, by rw [hlog, getElem?_snoc]; exact Or.inl hj⟩
+
+theorem pend_goto_other (w : World) (t t' : Nat) (pc : PC) (k : Key) (hne : t' ≠ t) :
+    Pend (w.goto t pc) t' k ↔ Pend w t' k := by
+  simp [Pend, World.goto, upd, hne]
+
+theorem pend_goto_self (w : World) (t : Nat) (pc : PC) (k : Key) :
+    Pend (w.goto t pc) t k ↔ (pc = .checked k ∨ pc = .dirMade k ∨ pc = .tmpMade k) := by
+  simp [Pend, World.goto, upd]
+
+theorem logInv_stepLoader (w : World) (t : Nat) (c : Choice) (h : LogInv w) : LogInv (stepLoader w t c) := by
+  -- a step of `t` that keeps the log and moves `t` to a pc outside the pending region, or along it
+  have keep : ∀ (w' : World) (pc : PC), w'.log = w.log → w'.pcs = w.pcs →
+      (∀ k, (pc = .checked k ∨ pc = .dirMade k ∨ pc = .tmpMade k) → Pend w t k) → LogInv (w'.goto t pc) := by
+    intro w' pc hl hpcs hpc
+    apply LogInv.same_log w _ h (by simp [World.goto, hl])
+    intro t' k hk
+    by_cases hne : t' = t
+    · subst hne; exact hpc k ((pend_goto_self w' t' pc k).mp hk)
+    · have := (pend_goto_other w' t t' pc k hne).mp hk
+      simpa [Pend, hpcs] using this
+  unfold stepLoader
+  simp only []
+  cases hc : c with
+  | die =>
+    simp only
+    split
+    · exact h
+    · exact keep w .dead rfl rfl (by intro k hk; simp at hk)
+  | ok =>
+    cases hpc : w.pcs t with
+    | idle => simpa [hpc] using h
+    | start ty rel =>
+      cases rel with
+      | none =>
+        simp only [hpc]
+        split
+        · exact keep w _ rfl rfl (by intro k hk; simp at hk)
+        · exact keep w _ rfl rfl (by intro k hk; simp at hk)
+      | some r => simp only [hpc]; exact keep w _ rfl rfl (by intro k hk; simp at hk)
+    | resolved k =>
+      simp only [hpc]
+      split
+      · apply LogInv.snoc_other w _ (Ev.isfile t k (w.files (.cache k)).isSome) h (by simp [World.goto]) (by intro _ _ hh; cases hh)
+        intro t' k' hk
+        by_cases hne : t' = t
+        · subst hne; simp [Pend, World.goto, upd] at hk
+        · left; simpa [Pend, World.goto, upd, hne] using hk
+      · rename_i hpres
+        apply LogInv.snoc_other w _ (Ev.isfile t k (w.files (.cache k)).isSome) h (by simp [World.goto]) (by intro _ _ hh; cases hh)
+        intro t' k' hk
+        by_cases hne : t' = t
+        · subst hne
+          right
+          simp only [Pend, World.goto, upd, if_true, PC.checked.injEq, reduceCtorEq, or_false] at hk
+          subst hk
+          simp at hpres
+          simp [hpres]
+        · left; simpa [Pend, World.goto, upd, hne] using hk
+    | checked k =>
+      simp only [hpc]
+      exact keep _ _ rfl rfl (by intro k' hk; simp at hk; subst hk; exact Or.inl hpc)
+    | dirMade k =>
+      simp only [hpc]
+      split
+      · exact keep _ _ rfl rfl (by intro k' hk; simp at hk; subst hk; exact Or.inr (Or.inl hpc))
+      · exact keep w _ rfl rfl (by intro k' hk; simp at hk)
+    | tmpMade k =>
+      simp only [hpc]
+      have hpend : Pend w t k := Or.inr (Or.inr hpc)
+      split
+      · apply LogInv.snoc_fetch w _ t k h (by simp [World.goto]) hpend
+        intro t' k' hk
+        by_cases hne : t' = t
+        · subst hne; simp [Pend, World.goto, upd] at hk
+        · simpa [Pend, World.goto, upd, hne] using hk
+      · apply LogInv.snoc_fetch w _ t k h (by simp [World.goto]) hpend
+        intro t' k' hk
+        by_cases hne : t' = t
+        · subst hne; simp [Pend, World.goto, upd] at hk
+        · simpa [Pend, World.goto, upd, hne] using hk
+    | fetched k b => simp only [hpc]; exact keep w _ rfl rfl (by intro k' hk; simp at hk)
+    | haveBytes k b =>
+      simp only [hpc]
+      split
+      · exact keep _ _ rfl rfl (by intro k' hk; simp at hk)
+      · exact keep _ _ rfl rfl (by intro k' hk; simp at hk)
+    | written k =>
+      simp only [hpc]
+      split
+      · apply LogInv.snoc_other w _ (Ev.stored t k) h (by simp [World.goto]) (by intro _ _ hh; cases hh)
+        intro t' k' hk
+        by_cases hne : t' = t
+        · subst hne; simp [Pend, World.goto, upd] at hk
+        · left; simpa [Pend, World.goto, upd, hne] using hk
+      · exact keep w _ rfl rfl (by intro k' hk; simp at hk)
+    | hit k =>
+      simp only [hpc]
+      split
+      · exact keep w _ rfl rfl (by intro k' hk; simp at hk)
+      · exact keep w _ rfl rfl (by intro k' hk; simp at hk)
+    | loaded k b => simpa [hpc] using h
+    | cleanup k => simp only [hpc]; exact keep _ _ rfl rfl (by intro k' hk; simp at hk)
+    | failed => simpa [hpc] using h
+    | dead => simpa [hpc] using h
+  | fail =>
+    cases hpc : w.pcs t with
+    | idle => simpa [hpc] using h
+    | start ty rel =>
+      cases rel with
+      | none => simp only [hpc]; exact keep w _ rfl rfl (by intro k hk; simp at hk)
+      | some r => simp only [hpc]; exact keep w _ rfl rfl (by intro k hk; simp at hk)
+    | resolved k =>
+      simp only [hpc]
+      split
+      · apply LogInv.snoc_other w _ (Ev.isfile t k (w.files (.cache k)).isSome) h (by simp [World.goto]) (by intro _ _ hh; cases hh)
+        intro t' k' hk
+        by_cases hne : t' = t
+        · subst hne; simp [Pend, World.goto, upd] at hk
+        · left; simpa [Pend, World.goto, upd, hne] using hk
+      · rename_i hpres
+        apply LogInv.snoc_other w _ (Ev.isfile t k (w.files (.cache k)).isSome) h (by simp [World.goto]) (by intro _ _ hh; cases hh)
+        intro t' k' hk
+        by_cases hne : t' = t
+        · subst hne
+          right
+          simp only [Pend, World.goto, upd, if_true, PC.checked.injEq, reduceCtorEq, or_false] at hk
+          subst hk
+          simp at hpres
+          simp [hpres]
+        · left; simpa [Pend, World.goto, upd, hne] using hk
+    | checked k =>
+      simp only [hpc]
+      exact keep _ _ rfl rfl (by intro k' hk; simp at hk; subst hk; exact Or.inl hpc)
+    | dirMade k =>
+      simp only [hpc]
+      split
+      · exact keep _ _ rfl rfl (by intro k' hk; simp at hk; subst hk; exact Or.inr (Or.inl hpc))
+      · exact keep w _ rfl rfl (by intro k' hk; simp at hk)
+    | tmpMade k =>
+      simp only [hpc]
+      have hpend : Pend w t k := Or.inr (Or.inr hpc)
+      apply LogInv.snoc_fetch w _ t k h (by simp [World.goto]) hpend
+      intro t' k' hk
+      by_cases hne : t' = t
+      · subst hne; simp [Pend, World.goto, upd] at hk
+      · simpa [Pend, World.goto, upd, hne] using hk
+    | fetched k b => simp only [hpc]; exact keep w _ rfl rfl (by intro k' hk; simp at hk)
+    | haveBytes k b => simp only [hpc]; exact keep _ _ rfl rfl (by intro k' hk; simp at hk)
+    | written k =>
+      simp only [hpc]
+      split
+      · apply LogInv.snoc_other w _ (Ev.stored t k) h (by simp [World.goto]) (by intro _ _ hh; cases hh)
+        intro t' k' hk
+        by_cases hne : t' = t
+        · subst hne; simp [Pend, World.goto, upd] at hk
+        · left; simpa [Pend, World.goto, upd, hne] using hk
+      · exact keep w _ rfl rfl (by intro k' hk; simp at hk)
+    | hit k =>
+      simp only [hpc]
+      split
+      · exact keep w _ rfl rfl (by intro k' hk; simp at hk)
+      · exact keep w _ rfl rfl (by intro k' hk; simp at hk)
+    | loaded k b => simpa [hpc] using h
+    | cleanup k => simp only [hpc]; exact keep _ _ rfl rfl (by intro k' hk; simp at hk)
+    | failed => simpa [hpc] using h
+    | dead => simpa [hpc] using h
+  | failAfter n =>
+    cases hpc : w.pcs t with
+    | idle => simpa [hpc] using h
+    | start ty rel =>
+      cases rel with
+      | none => simp only [hpc]; exact keep w _ rfl rfl (by intro k hk; simp at hk)
+      | some r => simp only [hpc]; exact keep w _ rfl rfl (by intro k hk; simp at hk)
+    | resolved k =>
+      simp only [hpc]
+      split
+      · apply LogInv.snoc_other w _ (Ev.isfile t k (w.files (.cache k)).isSome) h (by simp [World.goto]) (by intro _ _ hh; cases hh)
+        intro t' k' hk
+        by_cases hne : t' = t
+        · subst hne; simp [Pend, World.goto, upd] at hk
+        · left; simpa [Pend, World.goto, upd, hne] using hk
+      · rename_i hpres
+        apply LogInv.snoc_other w _ (Ev.isfile t k (w.files (.cache k)).isSome) h (by simp [World.goto]) (by intro _ _ hh; cases hh)
+        intro t' k' hk
+        by_cases hne : t' = t
+        · subst hne
+          right
+          simp only [Pend, World.goto, upd, if_true, PC.checked.injEq, reduceCtorEq, or_false] at hk
+          subst hk
+          simp at hpres
+          simp [hpres]
+        · left; simpa [Pend, World.goto, upd, hne] using hk
+    | checked k =>
+      simp only [hpc]
+      exact keep _ _ rfl rfl (by intro k' hk; simp at hk; subst hk; exact Or.inl hpc)
+    | dirMade k =>
+      simp only [hpc]
+      split
+      · exact keep _ _ rfl rfl (by intro k' hk; simp at hk; subst hk; exact Or.inr (Or.inl hpc))
+      · exact keep w _ rfl rfl (by intro k' hk; simp at hk)
+    | tmpMade k =>
+      simp only [hpc]
+      have hpend : Pend w t k := Or.inr (Or.inr hpc)
+      apply LogInv.snoc_fetch w _ t k h (by simp [World.goto]) hpend
+      intro t' k' hk
+      by_cases hne : t' = t
+      · subst hne; simp [Pend, World.goto, upd] at hk
+      · simpa [Pend, World.goto, upd, hne] using hk
+    | fetched k b => simp only [hpc]; exact keep w _ rfl rfl (by intro k' hk; simp at hk)
+    | haveBytes k b =>
+      simp only [hpc]
+      split
+      · exact keep _ _ rfl rfl (by intro k' hk; simp at hk)
+      · exact keep _ _ rfl rfl (by intro k' hk; simp at hk)
+    | written k =>
+      simp only [hpc]
+      split
+      · apply LogInv.snoc_other w _ (Ev.stored t k) h (by simp [World.goto]) (by intro _ _ hh; cases hh)
+        intro t' k' hk
+        by_cases hne : t' = t
+        · subst hne; simp [Pend, World.goto, upd] at hk
+        · left; simpa [Pend, World.goto, upd, hne] using hk
+      · exact keep w _ rfl rfl (by intro k' hk; simp at hk)
+    | hit k =>
+      simp only [hpc]
+      split
+      · exact keep w _ rfl rfl (by intro k' hk; simp at hk)
+      · exact keep w _ rfl rfl (by intro k' hk; simp at hk)
+    | loaded k b => simpa [hpc] using h
+    | cleanup k => simp only [hpc]; exact keep _ _ rfl rfl (by intro k' hk; simp at hk)
+    | failed => simpa [hpc] using h
+    | dead => simpa [hpc] using h
+
+end Hpv.Store
+
+namespace Hpv.Store
+
+theorem logInv_step (w : World) (a : Action) (h : LogInv w) : LogInv (step w a) := by
+  cases a with
+  | loader t c => exact logInv_stepLoader w t c h
+  | spawn t ty rel =>
+    simp only [step]
+    split
+    all_goals (
+      first
+      | exact h
+      | (refine LogInv.same_log w _ h rfl ?_
+         intro t' k hk
+         by_cases hne : t' = t
+         · subst hne; simp [Pend, upd] at hk
+         · simpa [Pend, upd, hne] using hk))
+  | clearTy ty => exact LogInv.same_log w _ h rfl (fun t k hk => hk)
+  | clearAll => exact LogInv.same_log w _ h rfl (fun t k hk => hk)
+
+theorem logInv_run (w : World) (as : List Action) (h : LogInv w) : LogInv (run w as) := by
+  induction as generalizing w with
+  | nil => exact h
+  | cons a as ih => exact ih (step w a) (logInv_step w a h)
+
+theorem logInv_init (remote : Key → Option Bytes) (tags : Ty → List Nat) : LogInv (World.init remote tags) :=
+  ⟨by intro i t k h; simp [World.init] at h, by intro t k h; simp [Pend, World.init] at h⟩
+
+/-! ### recovery: an undisturbed load from any reachable store succeeds with the remote's content -/
+
+theorem run_replicate_fixed (w : World) (a : Action) (n : Nat) (h : step w a = w) : run w (List.replicate n a) = w := by
+  induction n with
+  | zero => rfl
+  | succ n ih => simp only [List.replicate_succ, run, List.foldl_cons, h]; exact ih
+
+theorem healthy_hit (w : World) (t : Nat) (k : Key) (c : Bytes) (n : Nat)
+    (hpc : w.pcs t = .hit k) (hfile : w.files (.cache k) = some c) :
+    (run w (List.replicate (n + 1) (.loader t .ok))).pcs t = .loaded k c := by
+  have h1 : step w (.loader t .ok) = w.goto t (.loaded k c) := by
+    simp [step, stepLoader, hpc, hfile]
+  have h2 : step (w.goto t (.loaded k c)) (.loader t .ok) = w.goto t (.loaded k c) := by
+    simp [step, stepLoader, World.goto]
+  simp only [List.replicate_succ, run, List.foldl_cons, h1]
+  have := run_replicate_fixed (w.goto t (.loaded k c)) (.loader t .ok) n h2
+  unfold run at this
+  rw [this]
+  simp [World.goto]
+
+/-- **Recovery.** From ANY world satisfying the invariant (whatever earlier failures, kills, races and clears left
+behind — stray temp files, missing or existing directories, a cached copy or none) a loader `t` that is not in flight
+and runs undisturbed against a remote that serves `b` for the key ends in `loaded` with exactly `b`. -/
+theorem recovery (w : World) (hinv : Inv w) (t : Nat) (ty : Ty) (r : Nat) (b : Bytes)
+    (hidle : w.pcs t = .idle ∨ w.pcs t = .failed ∨ ∃ k c, w.pcs t = .loaded k c)
+    (hrem : w.remote ⟨ty, r⟩ = some b) :
+    (run w (healthyLoad t ty (some r))).pcs t = .loaded ⟨ty, r⟩ b := by
+  unfold healthyLoad
+  simp only [run, List.foldl_cons]
+  -- after the spawn
+  have hs : ∃ w1 : World, step w (.spawn t ty (some r)) = w1 ∧ w1.pcs t = .start ty (some r) ∧
+      w1.files = w.files ∧ w1.remote = w.remote := by
+    refine ⟨_, rfl, ?_, ?_, ?_⟩
+    · rcases hidle with h | h | ⟨k, c, h⟩ <;> simp [step, h]
+    · rcases hidle with h | h | ⟨k, c, h⟩ <;> simp [step, h]
+    · rcases hidle with h | h | ⟨k, c, h⟩ <;> simp [step, h]
+  obtain ⟨w1, e1, p1, f1, r1⟩ := hs
+  rw [e1]
+  -- step 1: resolve
+  have e2 : step w1 (.loader t .ok) = w1.goto t (.resolved ⟨ty, r⟩) := by simp [step, stepLoader, p1]
+  cases hc : w.files (.cache ⟨ty, r⟩) with
+  | some c =>
+    -- a complete copy is there (by the invariant it is the remote's content): hit
+    have hcb : c = b := by
+      have := hinv.cache ⟨ty, r⟩ c hc
+      rw [hrem] at this; exact (Option.some.inj this).symm
+    subst hcb
+    have hfile1 : (w1.goto t (.resolved ⟨ty, r⟩)).files (.cache ⟨ty, r⟩) = some c := by simp [World.goto, f1, hc]
+    have e3 : step (w1.goto t (.resolved ⟨ty, r⟩)) (.loader t .ok) =
+        ({ (w1.goto t (.resolved ⟨ty, r⟩)) with log := (w1.goto t (.resolved ⟨ty, r⟩)).log ++ [Ev.isfile t ⟨ty, r⟩ true] }).goto t (.hit ⟨ty, r⟩) := by
+      simp [step, stepLoader, World.goto, f1, hc]
+    have : (List.replicate 10 (Action.loader t Choice.ok)) =
+        Action.loader t .ok :: Action.loader t .ok :: List.replicate (7 + 1) (Action.loader t .ok) := rfl
+    rw [this]
+    simp only [List.foldl_cons, e2, e3]
+    exact healthy_hit _ t ⟨ty, r⟩ c 7 (by simp [World.goto]) (by simp [World.goto, f1, hc])
+  | none =>
+    have : (List.replicate 10 (Action.loader t Choice.ok)) =
+        Action.loader t .ok :: Action.loader t .ok :: Action.loader t .ok :: Action.loader t .ok :: Action.loader t .ok ::
+        Action.loader t .ok :: Action.loader t .ok :: Action.loader t .ok :: List.replicate (1 + 1) (Action.loader t .ok) := rfl
+    rw [this]
+    simp only [List.foldl_cons, e2]
+    -- resolved -> checked -> dirMade -> tmpMade -> fetched -> haveBytes -> written -> hit
+    have hk : (⟨ty, r⟩ : Key).ty = ty := rfl
+    refine healthy_hit _ t ⟨ty, r⟩ b 1 ?_ ?_
+    · simp [step, stepLoader, World.goto, upd, f1, r1, hc, hrem]
+    · simp [step, stepLoader, World.goto, upd, f1, r1, hc, hrem]
+
+/-! ### clearing -/
+
+/-- clearing one ontology type removes exactly the paths under that type (cached files, stray temp files, anything
+else) and nothing else; it is a no-op — not an error — when nothing was cached; clearing everything empties the store -/
+theorem clear_spec (w : World) (ty : Ty) (p : Path) :
+    (step w (.clearTy ty)).files p = (if p.under ty then none else w.files p) ∧
+    (step w .clearAll).files p = none ∧
+    ((∀ q, q.under ty = true → w.files q = none) → (step w (.clearTy ty)).files = w.files) := by
+  refine ⟨rfl, rfl, ?_⟩
+  intro h
+  funext q
+  simp only [step]
+  split
+  · rename_i hq; exact (h q hq).symm
+  · rfl
 
 end Hpv.Store
